@@ -42,6 +42,13 @@ func Arp(op uint64) *wire.N {
 		SetB("HWSrc", Pat(6, 3)).SetB("IPSrc", Pat(4, 4)).SetB("HWDst", Pat(6, 5)).SetB("IPDst", Pat(4, 6))
 }
 
+// ArpHW is an ARP packet for a link layer whose addresses are hl bytes long (Ethernet 6, IEEE 1394
+// 8, InfiniBand 20, Frame Relay 2..4; the field is 8 bits wide).
+func ArpHW(op uint64, hwType uint64, hl int) *wire.N {
+	return wire.New("arp").Set("HWType", hwType).Set("ProtoType", 0x800).Set("HWLength", uint64(hl)).Set("ProtoLength", 4).Set("Operation", op).
+		SetB("HWSrc", Pat(hl, 3)).SetB("IPSrc", Pat(4, 4)).SetB("HWDst", Pat(hl, 5)).SetB("IPDst", Pat(4, 6))
+}
+
 // IPv4 with optLen bytes of options (multiple of 4, <= 40).
 func IPv4(proto uint64, optLen int, payload *wire.N) *wire.N {
 	n := wire.New("ipv4").Set("Version", 4).Set("IHL", uint64(5+optLen/4)).Set("DSCP", 0x2e).Set("ECN", 1).
@@ -238,6 +245,10 @@ func Packets(thorough bool, yield func(n *wire.N)) {
 	// standalone headers
 	yield(Arp(1))
 	yield(Arp(2))
+	for _, hl := range []int{0, 1, 2, 5, 7, 8, 20, 64, 127, 128, 200, 255} {
+		yield(ArpHW(1, 32, hl))
+		yield(Eth(nil, 0x0806, ArpHW(2, 24, hl)))
+	}
 	for _, t := range transports() {
 		yield(t.n)
 	}
@@ -299,6 +310,21 @@ func Packets(thorough bool, yield func(n *wire.N)) {
 		yield(Dhcp(clones(s...)...))
 	})
 	yield(Lldp())
+	// identifiers up to the 255 bytes 802.1AB allows and to the 510 the 9-bit TLV length can express: the
+	// length then needs its ninth bit, which sits in the low bit of the type byte
+	for _, l := range []int{1, 127, 254, 255, 256, 300, 510} {
+		for _, which := range []string{"Chassis", "Port"} {
+			n := Lldp()
+			n.S[which].SetB("Data", Pat(l, l))
+			yield(n)
+		}
+	}
+	{
+		n := Lldp()
+		n.S["Chassis"].SetB("Data", Pat(255, 1))
+		n.S["Port"].SetB("Data", Pat(255, 2))
+		yield(n)
+	}
 	// IPv4 x protocol x options length
 	for _, ol := range []int{0, 4, 40} {
 		for _, t := range transports() {
